@@ -10,6 +10,12 @@ NOTES = (
 NOT_APPLICABLE = {}
 
 CHECKS = {
+    "C18": {
+        "text": "Across generated single-part scores (chords, voices, grace notes, ties, tuplets, pickups, signature changes), note-for-note performances (non-constant tempo, chord spread, arbitrary durations incl. < 75 ms and velocities) and alignments with deletions, insertions, ornaments and dangling ids in any order: decode_performance(encode_performance(...)) reproduces onsets up to one common shift, durations and velocities for all 5 tempo normalisations x 2 tempo-curve methods; to_matched_score and get_matched_notes return exactly the matches present on both sides ordered by (score onset, pitch), with beat columns compared to exact Fractions; get_time_maps_from_alignment interpolates the matched onsets (chords by their mean) in both directions and is linear in between. Exploration.",
+        "design_ref": "DESIGN.md 4 C18",
+        "note": "Mean onsets of successive score onsets strictly increase and every id occurs in at most one match; tolerances scale with the ratio of extreme local beat periods (float32 parameters); 'derivative' curve values are not judged, only invertibility; include_score_markings and callable tempo_smooth are not exercised.",
+        "technique": "property-based testing (Hypothesis): encode/decode round trip + exact Fraction reference for the matched table and time maps",
+    },
     "C20": {
         "text": "Model-based histories on a generated score (1-3 parts, optional group and repeat) and a performance aligned to it: generated sequences of the read-only entry points named by the property (save_musicxml, save_score_midi in all modes, save_performance_midi, save_match, score/part note arrays and rest arrays with option subsets, compute_pianoroll, all time/signature/clef/measure maps, pretty, unfold_part_maximal/minimal, iter_unfolded_parts, estimate_spelling/voices/key, transpose, len/indexing, iterator creation and single steps, nested loops); after every step the identity fingerprint of score, performance and alignment (every time point, object, attribute and link) must equal the initial one, a repeated call must return an identical result, every live iterator must yield each part once in order, nested loops must visit every pair. Exploration.",
         "design_ref": "DESIGN.md 4 C20",
